@@ -3,6 +3,7 @@ package main
 // Evaluation of specification expressions against a symbolic state.
 
 import (
+	"os"
 	"fmt"
 	"go/token"
 	"go/types"
@@ -281,6 +282,9 @@ func (s *Scope) evalBin(e *Expr) *Val {
 			}
 		}
 		panic(sfail("operator %s not available on mathematical integers", e.Name))
+	}
+	if x.Sort == SStr && y.Sort == SStr && e.Name == "+" {
+		return scalar(c.UF("str.concat", SStr, x, y), types.Typ[types.String])
 	}
 	if !isBV(x.Sort) {
 		panic(sfail("operator %s on sort %s", e.Name, x.Sort))
@@ -743,6 +747,9 @@ func (s *Scope) evalCall(e *Expr) *Val {
 		return n.eval(sf.Body)
 	}
 	// pure Go function or method of the package under contract
+	if os.Getenv("GOCV_DEBUG") != "" {
+		fmt.Fprintf(os.Stderr, "spec call %q not a macro (have %d spec fns)\n", e.Name, len(c.W.specFns))
+	}
 	if fn := s.resolveGoFunc(e); fn != nil {
 		var args []*Val
 		for i := range e.Args {
